@@ -30,6 +30,15 @@ type qrecorder struct {
 	void    bool // the driver did something the trace does not describe (a hung call cancelled behind the recorder's back)
 	enc     *json.Encoder
 	f       *os.File
+	onHook  atomic.Pointer[func(string)] // scenario callback run inside every engine hook, on the goroutine that took the step
+}
+
+func (q *qrecorder) setOnHook(f func(string)) {
+	if f == nil {
+		q.onHook.Store(nil)
+		return
+	}
+	q.onHook.Store(&f)
 }
 
 var qrec = &qrecorder{}
@@ -74,6 +83,9 @@ func (q *qrecorder) hook(name string, cur any, pointer []byte, a, b int) {
 	}
 	q.evs = append(q.evs, qev{g, gid, name, ci, fi, a, b})
 	q.mu.Unlock()
+	if f := q.onHook.Load(); f != nil && name != "cancel" && name != "bind" {
+		(*f)(name)
+	}
 }
 
 // note records a caller-side event of the driver for the query behind cur.
